@@ -206,4 +206,40 @@ SCOPES: dict[str, list[str]] = {
     "C17": ["maze_dataset.dataset.rasterized.", f"{LM}._remove_isolated_cells"],
     "C18": [f"{MD}.MazeDatasetConfig.", f"{MD}._load_maze_ctor", f"{DS}._load_applied_filters", "maze_dataset.dataset.collected_dataset.MazeDatasetCollectionConfig."],
     "C20": ["maze_dataset.plotting.plot_maze.MazePlot."],
+    "C04": [f"{MD}.MazeDataset.generate", f"{MD}._generate_maze_helper", f"{DS}.GPTDataset.from_config", "maze_dataset.generation.generators."],
+    "C15": ["maze_dataset.utils.all_instances", "maze_dataset.utils._all_instances_wrapper", "maze_dataset.utils._apply_validation_func",
+            "maze_dataset.tokenization.all_tokenizers.", "maze_dataset.tokenization.maze_tokenizer._TokenizerElement.", "maze_dataset.tokenization.maze_tokenizer.MazeTokenizerModular."],
 }
+
+
+# ------------------------------------------------------------------------------------------------ E17: hidden module state
+STATE_WRITERS = {
+    # the only functions of the pinned tree that write module-level state (confirmed by reading): explicit, documented setters
+    "maze_dataset.dataset.maze_dataset.set_serialize_minimal_threshold": "documented switch of the size threshold",
+    "maze_dataset.tokenization.maze_tokenizer.set_tokenizer_hashes_path": "documented path setter",
+    "maze_dataset.dataset.maze_dataset._maze_gen_init_worker": "per-process worker configuration (global rebinding), set before any maze is generated",
+}
+
+
+def make_state_rule(prop: str, rule_id: str, prefixes: list[str]):
+    """no function in the call closure of the anchored functions writes module-level state (containers assigned at module level,
+    `global` rebinding) except the tabulated setters: a result that depends on such state depends on the history of the process
+    (caches keyed by less than the full input, memo tables, counters)"""
+    def run(ctx) -> None:
+        from sa.callgraph import CallGraph
+
+        cg = CallGraph(ctx.index)
+        entries = [q for q in sorted(ctx.index.functions) if any(q == p or q.startswith(p) for p in prefixes)]
+        closure = cg.closure(entries) if entries else []
+        n = 0
+        for q in sorted(closure):
+            f = ctx.index.functions[q]
+            ws = X.module_state_writes(f.node, f.module.assigns)
+            n += 1
+            if ws and q not in STATE_WRITERS:
+                ctx.violation(f, {"writes_module_state": [X.U(w)[:90] for w in ws][:3]},
+                              "the anchored functions and what they call keep no state at module level (only the tabulated setters write it)",
+                              "a module-level cache / memo makes the result depend on earlier calls in the same process (stale or foreign entries are served)", node=ws[0], rule=rule_id)
+        ctx.holds(("-", f"{rule_id} scope", 0), {"entry_functions": len(entries), "functions_in_closure": n, "tabulated_setters": sorted(STATE_WRITERS)},
+                  "no function reachable from the anchored functions writes module-level state")
+    return run
